@@ -12,8 +12,11 @@
 Every buffer goes through the same judge: an independent reference sweep (gen/dalvik.decode + payload layout from the
 specification) decides whether the buffer is a valid stream (oracle (a)) or not (oracle (b)).
 """
+import os
+import pickle
 import struct
 import sys
+import traceback
 import types
 
 from mc.core import Acc, h8
@@ -30,6 +33,8 @@ RULE = ("(a) all sequences of <=2 catalogue instructions (one canonical + one al
         "EncodedMethod.get_instructions(_idx) (first, second and cached calls), DalvikCode.get_bc, DEX.disassemble; "
         "(b, fault-enumeration half) every 1-unit buffer, every 2-unit buffer over 65536 x 16 units, every single-byte "
         "substitution (12 values) and every byte truncation (declared size kept / adjusted) of a base set of (a). "
+        "History: every buffer's DCode is asked again (second get_instructions, off_to_pos) and must repeat the first "
+        "verdict; all 1-unit buffers are re-judged after an ODEX-mode sweep in the same process. "
         "A case is non-trivial when the buffer is non-empty; distinct by construction within a family (enumeration), "
         "measured by hashing (bytes, declared size) across families")
 ASSUMPTIONS = [
@@ -42,6 +47,9 @@ ASSUMPTIONS = [
     "a buffer is a 'valid stream' when the reference sweep decodes it completely with strictly valid instructions and "
     "complete, 4-byte aligned payloads and the declared size equals the buffer; every other buffer only gets oracle (b)",
     "termination = event budget of mc/budget.py (BUDGET0 + BUDGET1 x bytes), not wall clock",
+    "history dimensions: (1) later requests on the same DCode object (get_instructions twice, then off_to_pos) must give "
+    "the first sweep's verdict - judged for every buffer; (2) all 1-unit buffers again in DEX mode after an ODEX-mode "
+    "sweep in the same process (forked child; witness carries the history and replay executes it)",
 ]
 MANIFEST = {
     "engine": "E2-structures",
@@ -258,6 +266,31 @@ def _safe(f):
         return "EXC:%s: %s" % (type(e).__name__, e)
 
 
+def _verdict(fn):
+    """('exc', exception class name) or ('ok', [raw bytes of every instruction])"""
+    try:
+        return "ok", [bytes(i.get_raw()) for i in fn()]
+    except Exception as e:     # noqa
+        return "exc", type(e).__name__
+
+
+def _second_call(env, buf, size, status, val, got, cls, hx):
+    """History on ONE code item: every request for the instructions of the same DCode object must give the verdict of
+    the first sweep (same exception class or same instruction list) - get_instructions twice, then off_to_pos."""
+    first = ("exc", type(val).__name__) if status == "exc" else ("ok", [bytes(i.get_raw()) for i in got])
+    dc = env.dex.DCode(env.cm, 0, size, buf)
+    for n, (api, fn) in enumerate((("get_instructions", lambda: list(dc.get_instructions())),
+                                   ("get_instructions", lambda: list(dc.get_instructions())),
+                                   ("off_to_pos", lambda: [dc.get_instructions(), dc.off_to_pos(0)][0]))):
+        r = _verdict(fn)
+        if r != first:
+            what = "raised %s" % r[1] if r[0] == "exc" else "yielded %d instructions %s" % (len(r[1]), [x.hex() for x in r[1]])
+            want = "raised %s" % first[1] if first[0] == "exc" else "yielded %d instructions" % len(first[1])
+            return [("arbitrary:second-call:%s" % cls, "%s: the sweep %s, but request #%d on one DCode object (%s) %s"
+                     % (hx, want, n + 1, api, what))]
+    return []
+
+
 def judge(env, buf, size):
     """buf: code bytes; size: declared size in 16-bit units (2*size >= len(buf)).
     -> (outcome, [(key, msg)])"""
@@ -302,6 +335,8 @@ def judge(env, buf, size):
         v.append(("arbitrary:exception:%s" % classify_at(buf, off),
                   "%s: sweep raised %s: %s after %d instructions (offset %d)" % (hx, type(val).__name__, val, len(got), off)))
     outcome = (status if status != "exc" else type(val).__name__, len(got), prob[0][1] if prob else "valid")
+    if not v and not valid and status != "budget":
+        v += _second_call(env, buf, size, status, val, got, prob[0][1].split(":")[0] if prob else "nonstrict", hx)
     if not valid or v:
         if v and valid:
             v = [("valid:" + k.split(":", 1)[1], m) for k, m in v]
@@ -343,6 +378,9 @@ def judge(env, buf, size):
                 feat = listing[want][3] if want >= 0 else "between"
                 return outcome, [("valid:%s:off_to_pos" % feat, "%s: off_to_pos(%d)=%r get_ins_off -> %r; instruction index there: %d"
                                   % (hx, o, pos, io, want))]
+        if [bytes(i.get_raw()) for i in dc.get_instructions()] != [bytes(i.get_raw()) for i in got]:
+            return outcome, [("valid:second-call:%s" % (listing[0][3] if listing else "end"),
+                              "%s: a later DCode.get_instructions() differs from the first" % hx)]
     except Exception as e:     # noqa
         return outcome, [("valid:dcode:exception", "%s: DCode raised %s: %s" % (hx, type(e).__name__, e))]
     return outcome, v
@@ -629,6 +667,7 @@ def shards(ctx):
     s += [("u1", lo, lo + 0x4000) for lo in range(0, 0x10000, 0x4000)]
     s += [("u2", lo, lo + 0x400) for lo in range(0, 0x10000, 0x400)]
     s += [("fault", r, NFAULT) for r in range(NFAULT)]
+    s += [("hist", h, lo, lo + 0x4000) for h in sorted(HISTORIES) for lo in range(0, 0x10000, 0x4000)]
     for fam, n in sorted(dex_family_sizes().items()):
         s += [("dex", fam, lo, hi) for lo, hi in _chunks(n, 40 * DEX_BATCH)]
     if ctx.thorough:
@@ -637,8 +676,61 @@ def shards(ctx):
     return s
 
 
-def _run(acc, env, buf, size, family, listing=None):
+HISTORIES = {"after-odex-sweep": "earlier in this process an ODEX-mode linear sweep ran"}
+ODEX_HISTORY_CODE = struct.pack("<8H", 0xf9ff, 0x0001, 0x0000, 0x0002, 0xffff, 0x0003, 0x0000, 0x000e)
+
+
+def run_history(env, hist):
+    assert hist == "after-odex-sweep", hist
+
+    class OdexCM(StubCM):
+        def get_odex_format(self):
+            return True
+    seen = []
+    try:
+        for ins in env.dex.LinearSweepAlgorithm.get_instructions(OdexCM(env.dex), len(ODEX_HISTORY_CODE) // 2, ODEX_HISTORY_CODE, 0):
+            seen.append(ins.get_name())
+    except Exception as e:     # noqa
+        seen.append("EXC:" + type(e).__name__)
+    return seen
+
+
+def _in_child(fn):
+    """Run fn() in a forked child: a history changes process-global state and must not leak into the cases the pool
+    worker judges afterwards."""
+    r, w = os.pipe()
+    pid = os.fork()
+    if pid == 0:
+        code = 0
+        try:
+            os.close(r)
+            try:
+                data = pickle.dumps(("ok", fn()))
+            except BaseException:     # noqa
+                data = pickle.dumps(("err", traceback.format_exc()))
+            with os.fdopen(w, "wb") as f:
+                f.write(data)
+        except BaseException:     # noqa
+            code = 1
+        finally:
+            os._exit(code)
+    os.close(w)
+    with os.fdopen(r, "rb") as f:
+        data = f.read()
+    os.waitpid(pid, 0)
+    if not data:
+        raise RuntimeError("history child died without a result")
+    st, val = pickle.loads(data)
+    if st != "ok":
+        raise RuntimeError("history child failed:\n" + val)
+    return val
+
+
+def _run(acc, env, buf, size, family, listing=None, hist=None):
     outcome, viols = judge(env, buf, size)
+    if hist:
+        outcome = outcome + (hist,)
+        viols = [(k + ":" + hist, "[%s] %s" % (HISTORIES[hist], m)) for k, m in viols]
     acc.n += 1
     acc.count(family)
     if buf:
@@ -651,9 +743,14 @@ def _run(acc, env, buf, size, family, listing=None):
             acc.harness_error("reference sweep disagrees with the assembler on %s: %r %r vs %r" % (buf.hex(), lst, prob, listing))
     for key, msg in viols:
         old = acc.viol.get(key)
-        acc.violation(key, {"buf": buf.hex(), "size": size}, msg)
+        w = {"buf": buf.hex(), "size": size}
+        if hist:
+            w["history"] = hist
+        elif ":second-call:" in key:
+            w["history"] = "second-call"          # informative: the judge always makes the later requests
+        acc.violation(key, w, msg)
         if old is not None and len(buf) < len(old["witness"]["buf"]) // 2:      # keep the smallest witness of the shard
-            old["witness"], old["msg"] = {"buf": buf.hex(), "size": size}, str(msg)[:2000]
+            old["witness"], old["msg"] = w, str(msg)[:2000]
 
 
 def _run_dex(acc, env, codes):
@@ -676,11 +773,23 @@ def _run_dex(acc, env, codes):
 
 
 def run_shard(ctx, shard):
+    if shard[0] == "hist":
+        return _in_child(lambda: _run_shard(ctx, shard))
+    return _run_shard(ctx, shard)
+
+
+def _run_shard(ctx, shard):
     env = Env(budget=shard[0] != "dex")
     acc = Acc()
     acc._oc = set()
     kind = shard[0]
-    if kind == "dex":
+    if kind == "hist":
+        seen = run_history(env, shard[1])
+        for u in range(shard[2], shard[3]):
+            _run(acc, env, struct.pack("<H", u), 1, shard[1] + ":arbitrary_1unit", hist=shard[1])
+        if shard[2] == 0:
+            acc.sample({"history": shard[1], "history_observed": seen, "then": "every 1-unit buffer in DEX mode"})
+    elif kind == "dex":
         batch = []
         for code in dex_streams(shard[1], shard[2], shard[3]):
             batch.append(code)
@@ -760,6 +869,8 @@ def replay(ctx, w):
         res = judge_dex(env, [bytes.fromhex(x) for x in w["via_dex"]])
         return "\n".join("%s: %s" % (k, m) for _, k, m in res) or None
     env = Env()
+    if w.get("history") in HISTORIES:
+        run_history(env, w["history"])            # fresh process: execute the history first
     _, viols = judge(env, bytes.fromhex(w["buf"]), w["size"])
     env.close()
     if viols:
@@ -776,6 +887,9 @@ def finalize(ctx, acc):
         acc.harness_error("arbitrary buffers explored %r" % acc.extra)
     if acc.extra.get("via_dex_methods", 0) != sum(dex_family_sizes().values()):
         acc.harness_error("via-dex methods explored %d != %d" % (acc.extra.get("via_dex_methods", 0), sum(dex_family_sizes().values())))
+    if acc.extra.get("after-odex-sweep:arbitrary_1unit", 0) != 65536:
+        acc.harness_error("history dimension: %d of 65536 1-unit buffers re-judged after an ODEX sweep"
+                          % acc.extra.get("after-odex-sweep:arbitrary_1unit", 0))
     if not acc.extra.get("fault_substitutions") or not acc.extra.get("fault_truncations"):
         acc.harness_error("fault half empty")
     # the budget mechanism itself must be live: a loop that never ends has to be cut
